@@ -23,6 +23,12 @@ TRUSTED = [
     "`del` of an absent attribute raises AttributeError",
     "every library entry point obtains its accountant through BudgetAccountant.load_default(accountant) at the moment "
     "the call (tools) or the constructor (models) runs — sampled here over tools and estimators, not proved",
+    "static tie (harness/translate/scopeir.py, regenerated on every run): the bodies of __enter__, __exit__, set_default, "
+    "pop_default and load_default are translated from the current AST into the IR of DPL/Model/ScopeIR.lean and the "
+    "generated obligations prove that its interpreter, run on them, IS enterI / exitI / stepI; trusted there: the "
+    "translator's reading of the eight statement and nine expression forms it accepts (anything else makes the tie "
+    "unavailable), that the dropped `isinstance` guard of load_default only raises, and that the one other writer of "
+    "`_default` (forest.py __sklearn_tags__: save, then restore in `finally`) is an identity on the scope state",
     "a single thread: `_default` is process-wide state; concurrent `with` blocks in several threads are outside the "
     "model and outside the property",
 ]
@@ -728,6 +734,19 @@ def _witness_forest(ctx):
 
 
 WITNESSES = {"C16:explicit-call-rewrites-default:RandomForestClassifier": _witness_forest}
+
+
+def generate(ctx):
+    """translator tie: the five scoping methods are re-read from /repo's AST, emitted as IR terms and proved to be the
+    hand-written machine (7 obligations: five contracts, no other writer of the scoping attributes, `_default = None`)"""
+    import os
+    from ..translate import scopeir
+    try:
+        r = scopeir.generate(os.environ.get("VERIF_REPO", "/repo"), leanio.LEAN)
+    except scopeir.Untranslatable as e:
+        return {"build": [], "obligations": 0, "unavailable": [f"scope IR: {e}"]}
+    ctx.count("scope_ir_methods", 5)
+    return {"build": r["build"], "obligations": r["obligations"]}
 
 
 def check(ctx):
